@@ -650,6 +650,11 @@ def run(ctx):
                                        norm(rep[0][0], 70) if rep else ""),
                   node=rep[0][0] if rep else fi9.node)
     ctx.floor("C06-R9", n9, 2, "estimator functions examined")
+    from .. import link as _link
+    n10 = _link.argument_binding(ctx, "C06-R10", modules=["BANE"],
+                                 what="BANE: step / box sizes, shapes, "
+                                 "regions")
+    ctx.floor("C06-R10", n10, 3, "internal calls in BANE")
     from .c20 import r5_planes
     r5_planes(ctx, prog, rule="C06-R8")
     # ---------------------------------------------------------------- R7
